@@ -159,7 +159,7 @@ func (fv *FV) zero(t types.Type) Val {
 	case strings.HasPrefix(s, "(GSeq "):
 		if arr, ok := types.Unalias(t).Underlying().(*types.Array); ok {
 			ez := fv.zero(arr.Elem())
-			v.T = fmt.Sprintf("(mksq ((as const (Array Int %s)) %s) %d 1)", ez.S, ez.T, arr.Len())
+			v.T = fmt.Sprintf("((as mksq %s) %s %d 1)", s, fv.constArr("Int", ez.S, ez.T), arr.Len())
 		} else {
 			c := "seqnil_" + sanitize(s)
 			fv.sess.decl("c:"+c, fmt.Sprintf("(declare-const %s %s)\n(assert (and (= (sq.len %s) 0) (= (sq.ref %s) 0)))", c, s, c, c))
@@ -245,13 +245,13 @@ func (fv *FV) assign(st *State, lhs ast.Expr, v Val) {
 		case *types.Slice, *types.Array:
 			fv.safe(st, "idx", x, fmt.Sprintf("(and (<= 0 %s) (< %s (sq.len %s)))", idx.T, idx.T, cont.T))
 			v = fv.convertTo(st, v, elemType(u))
-			nv := Val{T: fmt.Sprintf("(mksq (store (sq.arr %s) %s %s) (sq.len %s) (sq.ref %s))", cont.T, idx.T, v.T, cont.T, cont.T), S: cont.S, Go: xt}
+			nv := Val{T: fmt.Sprintf("((as mksq %s) (store (sq.arr %s) %s %s) (sq.len %s) (sq.ref %s))", cont.S, cont.T, idx.T, v.T, cont.T, cont.T), S: cont.S, Go: xt}
 			fv.assign(st, x.X, nv)
 		case *types.Map:
 			fv.safe(st, "mapw", x, fmt.Sprintf("(not (= (mp.ref %s) 0))", cont.T))
 			v = fv.convertTo(st, v, u.Elem())
 			idx = fv.convertTo(st, idx, u.Key())
-			nv := Val{T: fmt.Sprintf("(mkmp (store (mp.val %s) %s %s) (store (mp.dom %s) %s true) (mp.ref %s))", cont.T, idx.T, v.T, cont.T, idx.T, cont.T), S: cont.S, Go: xt}
+			nv := Val{T: fmt.Sprintf("((as mkmp %s) (store (mp.val %s) %s %s) (store (mp.dom %s) %s true) (mp.ref %s))", cont.S, cont.T, idx.T, v.T, cont.T, idx.T, cont.T), S: cont.S, Go: xt}
 			fv.assign(st, x.X, nv)
 		case *types.Pointer:
 			fv.unsupported("index through array pointer")
@@ -1051,7 +1051,7 @@ func (fv *FV) evalSliceExpr(st *State, x *ast.SliceExpr) Val {
 func (fv *FV) subSeq(s Val, lo, hi string, t types.Type) Val {
 	es := seqElemSort(s.S)
 	if lo == "0" {
-		return Val{T: fmt.Sprintf("(mksq (sq.arr %s) %s (ite (and (= (sq.ref %s) 0)) 0 (sq.ref %s)))", s.T, hi, s.T, s.T), S: s.S, Go: t}
+		return Val{T: fmt.Sprintf("((as mksq %s) (sq.arr %s) %s (ite (and (= (sq.ref %s) 0)) 0 (sq.ref %s)))", s.S, s.T, hi, s.T, s.T), S: s.S, Go: t}
 	}
 	if fv.pure > 0 {
 		fv.unsupported("slicing with non-zero low bound in pure context")
@@ -1102,7 +1102,7 @@ func (fv *FV) evalCompositeLit(st *State, x *ast.CompositeLit) Val {
 		et := elemType(u)
 		es := fv.sess.sortOf(et)
 		z := fv.zero(et)
-		arr := fmt.Sprintf("((as const (Array Int %s)) %s)", es, z.T)
+		arr := fv.constArr("Int", es, z.T)
 		n := 0
 		for _, el := range x.Elts {
 			if kv, ok := el.(*ast.KeyValueExpr); ok {
@@ -1123,11 +1123,11 @@ func (fv *FV) evalCompositeLit(st *State, x *ast.CompositeLit) Val {
 			n = int(a.Len())
 		}
 		ref := fv.newRef()
-		return fv.name("lit", Val{T: fmt.Sprintf("(mksq %s %d %s)", arr, n, ref), S: fmt.Sprintf("(GSeq %s)", es), Go: t})
+		return fv.name("lit", Val{T: fmt.Sprintf("((as mksq %s) %s %d %s)", fmt.Sprintf("(GSeq %s)", es), arr, n, ref), S: fmt.Sprintf("(GSeq %s)", es), Go: t})
 	case *types.Map:
 		ks, vs := fv.sess.sortOf(u.Key()), fv.sess.sortOf(u.Elem())
 		z := fv.zero(u.Elem())
-		val := fmt.Sprintf("((as const (Array %s %s)) %s)", ks, vs, z.T)
+		val := fv.constArr(ks, vs, z.T)
 		dom := fmt.Sprintf("((as const (Array %s Bool)) false)", ks)
 		for _, el := range x.Elts {
 			kv := el.(*ast.KeyValueExpr)
@@ -1143,7 +1143,7 @@ func (fv *FV) evalCompositeLit(st *State, x *ast.CompositeLit) Val {
 			dom = fmt.Sprintf("(store %s %s true)", dom, k.T)
 		}
 		ref := fv.newRef()
-		return fv.name("lit", Val{T: fmt.Sprintf("(mkmp %s %s %s)", val, dom, ref), S: fmt.Sprintf("(GMap %s %s)", ks, vs), Go: t})
+		return fv.name("lit", Val{T: fmt.Sprintf("((as mkmp %s) %s %s %s)", fmt.Sprintf("(GMap %s %s)", ks, vs), val, dom, ref), S: fmt.Sprintf("(GMap %s %s)", ks, vs), Go: t})
 	case *types.Pointer:
 		// &T{} elided in nested literal
 	}
@@ -1159,4 +1159,37 @@ func (fv *FV) newRef() string {
 	r := fv.sess.fresh("ref", "Int")
 	fv.sess.fact(fmt.Sprintf("(> %s alloc0)", r))
 	return r
+}
+
+// constArr: the array that maps every index to v. SMT-LIB constant arrays
+// need a value; for symbolic defaults a fresh array with a quantified
+// definition is used instead.
+func (fv *FV) constArr(idx, elem, v string) string {
+	if isSMTValue(v) {
+		return fmt.Sprintf("((as const (Array %s %s)) %s)", idx, elem, v)
+	}
+	key := "carr:" + idx + ":" + elem + ":" + v
+	name := "carr_" + sanitize(elem)
+	if n, ok := fv.sess.strLits[key]; ok {
+		return n
+	}
+	fv.sess.n++
+	name = fmt.Sprintf("%s!%d", name, fv.sess.n)
+	fv.sess.strLits[key] = name
+	fv.sess.decls = append(fv.sess.decls, fmt.Sprintf("(declare-const %s (Array %s %s))", name, idx, elem),
+		fmt.Sprintf("(assert (forall ((i!c %s)) (! (= (select %s i!c) %s) :pattern ((select %s i!c)))))", idx, name, v, name))
+	return name
+}
+
+func isSMTValue(v string) bool {
+	if v == "true" || v == "false" || v == "unit" {
+		return true
+	}
+	if len(v) > 0 && v[0] >= '0' && v[0] <= '9' {
+		return true
+	}
+	if strings.HasPrefix(v, "(- ") {
+		return true
+	}
+	return false
 }
